@@ -1,6 +1,7 @@
 /-
 On the arithmetic fragment `ArithOnly` the analysis returns an integer annotation that
 satisfies the invariant: no assert, no `int("infinity")`, no `"infinity" % n`.
+(No side condition any more: since the fix of F8 bound functions never yield a constant infinity.)
 -/
 import Emboss.Spec.BoundsArith
 import Emboss.Lemmas.BoundsTight
@@ -13,20 +14,19 @@ theorem absChoice_atom {c : Expr} (hc : isBoolAtom c = true) : ∃ ob, abs c = s
   · exact ⟨_, rfl⟩
 
 mutual
-theorem total_aux : (e : Expr) → ArithOnly e = true → GivenOk e = true → FiniteBounds e = true →
+theorem total_aux : (e : Expr) → ArithOnly e = true → GivenOk e = true →
     ∃ a, abs e = some (.int a) ∧ InvS a
-  | .const c, _, _, _ => ⟨constRange c, rfl, Or.inl ⟨c, rfl⟩⟩
-  | .ileaf _ k size, _, _, _ => ⟨leafRange k size, rfl, InvS_of_InvOk (leafRange_invOk k size)⟩
-  | .ssize _, _, _, _ => ⟨staticSizeRange, rfl, InvS_of_InvOk (by decide)⟩
-  | .given _ a, _, hg, _ => by
+  | .const c, _, _ => ⟨constRange c, rfl, Or.inl ⟨c, rfl⟩⟩
+  | .ileaf _ k size, _, _ => ⟨leafRange k size, rfl, InvS_of_InvOk (leafRange_invOk k size)⟩
+  | .ssize _, _, _ => ⟨staticSizeRange, rfl, InvS_of_InvOk (by decide)⟩
+  | .given _ a, _, hg => by
     simp only [GivenOk] at hg
     exact ⟨a, rfl, InvS_of_InvOk hg⟩
-  | .bin op l r, h, hg, hf => by
+  | .bin op l r, h, hg => by
     simp only [ArithOnly, Bool.and_eq_true] at h
     simp only [GivenOk, Bool.and_eq_true] at hg
-    simp only [FiniteBounds, Bool.and_eq_true] at hf
-    obtain ⟨al, habl, hil⟩ := total_aux l h.1.2 hg.1 hf.1
-    obtain ⟨ar, habr, hir⟩ := total_aux r h.2 hg.2 hf.2
+    obtain ⟨al, habl, hil⟩ := total_aux l h.1.2 hg.1
+    obtain ⟨ar, habr, hir⟩ := total_aux r h.2 hg.2
     have hop := h.1.1
     cases op <;> simp [isArith] at hop
     · obtain ⟨a, ha, hia⟩ := additive_inv false hil hir
@@ -35,12 +35,11 @@ theorem total_aux : (e : Expr) → ArithOnly e = true → GivenOk e = true → F
       exact ⟨a, by simp [abs, habl, habr, absBin, isArith, absArith, ha], hia⟩
     · obtain ⟨a, ha, hia⟩ := multiplicative_inv hil hir
       exact ⟨a, by simp [abs, habl, habr, absBin, isArith, absArith, ha], hia⟩
-  | .choice c t f, h, hg, hf => by
+  | .choice c t f, h, hg => by
     simp only [ArithOnly, Bool.and_eq_true] at h
     simp only [GivenOk, Bool.and_eq_true] at hg
-    simp only [FiniteBounds, Bool.and_eq_true] at hf
-    obtain ⟨at', habt, hit⟩ := total_aux t h.1.2 hg.1.2 hf.1.2
-    obtain ⟨af, habf, hif⟩ := total_aux f h.2 hg.2 hf.2
+    obtain ⟨at', habt, hit⟩ := total_aux t h.1.2 hg.1.2
+    obtain ⟨af, habf, hif⟩ := total_aux f h.2 hg.2
     obtain ⟨ob, hc⟩ := absChoice_atom h.1.1
     cases ob with
     | some b =>
@@ -50,11 +49,10 @@ theorem total_aux : (e : Expr) → ArithOnly e = true → GivenOk e = true → F
     | none =>
       obtain ⟨a, ha, hia⟩ := choiceHull_inv hit hif
       exact ⟨a, by simp [abs, hc, habt, habf, absChoice, ha], hia⟩
-  | .max args, h, hg, hf => by
+  | .max args, h, hg => by
     simp only [ArithOnly, Bool.and_eq_true] at h
     simp only [GivenOk] at hg
-    simp only [FiniteBounds] at hf
-    obtain ⟨avs, habs, hinv⟩ := totalList_aux args h.2 hg hf
+    obtain ⟨avs, habs, hinv⟩ := totalList_aux args h.2 hg
     have hne : avs ≠ [] := by
       intro e
       subst e
@@ -65,55 +63,35 @@ theorem total_aux : (e : Expr) → ArithOnly e = true → GivenOk e = true → F
         split at habs <;> simp at habs
     obtain ⟨a, ha, hia⟩ := maxFn_inv hne hinv
     exact ⟨a, by simp [abs, habs, absMax, atypeInts_map, ha], hia⟩
-  | .upper e, h, hg, hf => by
+  | .upper e, h, hg => by
     simp only [ArithOnly] at h
     simp only [GivenOk] at hg
-    simp only [FiniteBounds, Bool.and_eq_true] at hf
-    obtain ⟨a, habs, _⟩ := total_aux e h hg hf.1
-    have h2 := hf.2
-    rw [habs] at h2
-    cases hm : a.max with
-    | fin c =>
-      refine ⟨constRange c, ?_, Or.inl ⟨c, rfl⟩⟩
-      simp only [abs, habs, absBound]
-      rw [boundFn_inv (up := true) (by simpa using hm)]
-    | posInf => simp [hm, ExtInt.isInf] at h2
-    | negInf => simp [hm, ExtInt.isInf] at h2
-  | .lower e, h, hg, hf => by
+    obtain ⟨a, habs, _⟩ := total_aux e h hg
+    exact ⟨boundFn true a, by simp only [abs, habs, absBound], boundFn_invS true a⟩
+  | .lower e, h, hg => by
     simp only [ArithOnly] at h
     simp only [GivenOk] at hg
-    simp only [FiniteBounds, Bool.and_eq_true] at hf
-    obtain ⟨a, habs, _⟩ := total_aux e h hg hf.1
-    have h2 := hf.2
-    rw [habs] at h2
-    cases hm : a.min with
-    | fin c =>
-      refine ⟨constRange c, ?_, Or.inl ⟨c, rfl⟩⟩
-      simp only [abs, habs, absBound]
-      rw [boundFn_inv (up := false) (by simpa using hm)]
-    | posInf => simp [hm, ExtInt.isInf] at h2
-    | negInf => simp [hm, ExtInt.isInf] at h2
-  | .vref e, h, hg, hf => by
+    obtain ⟨a, habs, _⟩ := total_aux e h hg
+    exact ⟨boundFn false a, by simp only [abs, habs, absBound], boundFn_invS false a⟩
+  | .vref e, h, hg => by
     simp only [ArithOnly] at h
     simp only [GivenOk] at hg
-    simp only [FiniteBounds] at hf
-    obtain ⟨a, habs, hia⟩ := total_aux e h hg hf
+    obtain ⟨a, habs, hia⟩ := total_aux e h hg
     exact ⟨a, by simp only [abs, habs], hia⟩
-  | .bconst _, h, _, _ => by simp [ArithOnly] at h
-  | .econst _, h, _, _ => by simp [ArithOnly] at h
-  | .bleaf _, h, _, _ => by simp [ArithOnly] at h
-  | .eleaf _, h, _, _ => by simp [ArithOnly] at h
-  | .cref _, h, _, _ => by simp [ArithOnly] at h
+  | .bconst _, h, _ => by simp [ArithOnly] at h
+  | .econst _, h, _ => by simp [ArithOnly] at h
+  | .bleaf _, h, _ => by simp [ArithOnly] at h
+  | .eleaf _, h, _ => by simp [ArithOnly] at h
+  | .cref _, h, _ => by simp [ArithOnly] at h
+  | .present _ _, h, _ => by simp [ArithOnly] at h
 theorem totalList_aux : (es : List Expr) → ArithOnlyList es = true → GivenOkList es = true →
-    FiniteBoundsList es = true →
     ∃ avs : List AVal, absList es = some (avs.map .int) ∧ ∀ a ∈ avs, InvS a
-  | [], _, _, _ => ⟨[], rfl, fun a ha => nomatch ha⟩
-  | e :: es, h, hg, hf => by
+  | [], _, _ => ⟨[], rfl, fun a ha => nomatch ha⟩
+  | e :: es, h, hg => by
     simp only [ArithOnlyList, Bool.and_eq_true] at h
     simp only [GivenOkList, Bool.and_eq_true] at hg
-    simp only [FiniteBoundsList, Bool.and_eq_true] at hf
-    obtain ⟨a, habs, hia⟩ := total_aux e h.1 hg.1 hf.1
-    obtain ⟨avs, habss, hinv⟩ := totalList_aux es h.2 hg.2 hf.2
+    obtain ⟨a, habs, hia⟩ := total_aux e h.1 hg.1
+    obtain ⟨avs, habss, hinv⟩ := totalList_aux es h.2 hg.2
     refine ⟨a :: avs, by simp [absList, habs, habss], ?_⟩
     intro b hb
     rcases List.mem_cons.mp hb with rfl | hm
